@@ -73,7 +73,7 @@ def runStep (s : RunSt) (line : String) : RunSt × String :=
     match kvNat ws "level", kvNat ws "t" with
     | some l, some _ =>
       if s.level.isSome || (l != 1 && l != 2) then (s, "bad-op")
-      else if wellFormed ⟨s.quotas⟩ then ({ s with level := some l, okCfg := true }, "ok")
+      else if !s.quotas.isEmpty && wellFormed ⟨s.quotas⟩ then ({ s with level := some l, okCfg := true }, "ok")
       else ({ s with level := some l, okCfg := false }, "err:cfg")
     | _, _ => (s, "bad-op")
   | "counters" :: ws =>
